@@ -39,14 +39,19 @@ func c17Read(c *Ctx, r *Report) {
 		present bool
 		burst   int64
 	}
-	cases := []struct{ t, l lim }{
-		{lim{false, 0}, lim{false, 0}},
-		{lim{true, 5}, lim{false, 0}}, {lim{true, 50}, lim{false, 0}},
-		{lim{false, 0}, lim{true, 5}}, {lim{false, 0}, lim{true, 50}},
-		{lim{true, 5}, lim{true, 7}}, {lim{true, 7}, lim{true, 5}}, {lim{true, 50}, lim{true, 5}}, {lim{true, 50}, lim{true, 60}},
+	cases := []struct {
+		t, l lim
+		lenP int64
+	}{
+		{lim{false, 0}, lim{false, 0}, 10},
+		{lim{true, 5}, lim{false, 0}, 10}, {lim{true, 50}, lim{false, 0}, 10},
+		{lim{false, 0}, lim{true, 5}, 10}, {lim{false, 0}, lim{true, 50}, 10},
+		{lim{true, 5}, lim{true, 7}, 10}, {lim{true, 7}, lim{true, 5}, 10}, {lim{true, 50}, lim{true, 5}, 10}, {lim{true, 50}, lim{true, 60}, 10},
+		// batches at and around the sizes at which code that pays in pieces goes wrong (1 KiB, 2 KiB, 4 KiB)
+		{lim{true, 1024}, lim{false, 0}, 4096}, {lim{true, 4096}, lim{true, 2048}, 4096}, {lim{false, 0}, lim{true, 4096}, 4096}, {lim{true, 8192}, lim{false, 0}, 1025},
 	}
-	const lenP = 10
 	for _, cs := range cases {
+		lenP := cs.lenP
 		name := fmt.Sprintf("len(p)=%d,total=%v,local=%v", lenP, cs.t, cs.l)
 		// the state of the throttled connection is the one Handle builds for this configuration (whatever fields
 		// it is kept in): the handler-wide limiter is "totalLimiter", the one made for the connection "localLimiter"
@@ -79,7 +84,7 @@ func c17Read(c *Ctx, r *Report) {
 			r.bad("C17.R1", fnName, name, c.pos(fn.Pos()), fmt.Sprintf("undecided: %v", err))
 			continue
 		}
-		batch := int64(lenP)
+		batch := lenP
 		if cs.t.present && cs.t.burst < batch {
 			batch = cs.t.burst
 		}
@@ -126,9 +131,22 @@ func c17Read(c *Ctx, r *Report) {
 					}
 				}
 			}
+			// tokens may be taken in pieces: per limiter they add up to the batch
+			paid := map[string]int64{}
+			payOK := true
 			for _, w := range waits {
-				if w.Args[2] != fmt.Sprint(batch) {
-					p1 = append(p1, fmt.Sprintf("%s waits for %s tokens, batch must be min(len(p), bursts) = %d", w.Args[0], w.Args[2], batch))
+				var amt int64
+				if _, err := fmt.Sscan(w.Args[2], &amt); err != nil || amt < 0 {
+					payOK = false
+					p1 = append(p1, fmt.Sprintf("%s waits for %s tokens, which the evaluation cannot add up", w.Args[0], w.Args[2]))
+				}
+				paid[w.Args[0]] += amt
+			}
+			if payOK && !failed {
+				for lname, amt := range paid {
+					if amt != batch {
+						p1 = append(p1, fmt.Sprintf("%s is asked for %d tokens in all, batch must be min(len(p), bursts) = %d: more bytes than tokens are pulled from the client", lname, amt, batch))
+					}
 				}
 			}
 			if failed {
@@ -151,7 +169,7 @@ func c17Read(c *Ctx, r *Report) {
 			for _, w := range waits {
 				seen[w.Args[0]] = true
 			}
-			if len(waits) != want || (cs.t.present && !seen["totalLimiter"]) || (cs.l.present && !seen["localLimiter"]) {
+			if len(seen) != want || (cs.t.present && !seen["totalLimiter"]) || (cs.l.present && !seen["localLimiter"]) {
 				p1 = append(p1, fmt.Sprintf("not every configured limiter is asked for tokens before reading (waited on %v): %s", seen, tr))
 			}
 			wantArg := fmt.Sprintf("p[:%d]", batch)
